@@ -4,8 +4,5 @@ CONSTANTS
   Tier = "thorough"
 SPECIFICATION Spec
 CHECK_DEADLOCK FALSE
-INVARIANT MassBalance
-INVARIANT FrozenMarginal
-INVARIANT LinesOK
+INVARIANT LinesPrecalc
 PROPERTY StepOK
-PROPERTY IsolatedMarginal
